@@ -29,6 +29,8 @@ const (
 	stRefollow      = "refollow"          // follower: FOLLOW no one, then FOLLOW again
 	stDetachWr      = "detachwr"          // follower: FOLLOW no one, writes of its own (Cmds), FOLLOW again
 	stSplit         = "split"             // follower: FOLLOW no one + own writes (Cmds); leader meanwhile writes LCmds of exactly the same encoded sizes; FOLLOW again
+	stRewriteShrink = "rewrite-shrink"    // leader writes Cmds (large records of one fixed length), AOFSHRINK, the follower catches up (oracle); leader overwrites some of them with LCmds (records of exactly the same encoded length), AOFSHRINK again: the two logs then differ only inside regions of equal length
+	stSwitch        = "switch-leader"     // a second leader with its own history (Cmds) is started behind a paced proxy and the follower is pointed at it with FOLLOW; while it loads, reads are sampled: whenever HEALTHZ says "not caught up" before and after a read, the read must have been refused; afterwards the new leader is the leader of the case
 	stShrinkBacklog = "shrink-in-backlog" // leader writes Cmds (a large backlog); the follower loses its disk and re-attaches from position 0 over a link that delivers nothing for Ms; once its AOF request is through, AOFSHRINK runs to completion on the leader; then the leader writes LCmds
 	stCutMD5        = "cutmd5"            // cut now, and close the follower's next checksum exchange (AOFMD5) in mid-air
 	stPubStorm      = "pubstorm"          // burst of leader writes (Cmds) while a second leader connection sends Ms PUBLISH commands concurrently
@@ -67,8 +69,13 @@ type caseSpec struct {
 	// SyncBeforeFollow: an oracle evaluation (hence a follower in steady state,
 	// its follow session past the handshake) precedes every step that re-issues FOLLOW
 	SyncBeforeFollow bool `json:"sync_before_follow,omitempty"`
+	// SyncBeforeShrink: an oracle evaluation (a steady follower, no handshake in
+	// flight) precedes every AOFSHRINK on the leader
+	SyncBeforeShrink bool `json:"sync_before_shrink,omitempty"`
 	// AvoidBoundary: skip the case if the leader's log has a command boundary at offset 524288 when the follower is created
 	AvoidBoundary bool `json:"avoid_boundary,omitempty"`
+	// NoAOF: the follower runs with --appendonly no (it has no log of its own)
+	NoAOF bool `json:"no_aof,omitempty"`
 	// TailRefollow: after the final check, FOLLOW no one + FOLLOW as the forced reconnect of one more evaluation
 	TailRefollow bool `json:"tail_refollow,omitempty"`
 	// pacing of the replication stream during the tail phases
@@ -366,6 +373,9 @@ type genOpts struct {
 	// noBoundaryAt512K: skip a case at run time when the leader's log has a command
 	// boundary exactly at offset 524288 at the moment the follower is created
 	noBoundaryAt512K bool
+	// noShrinkInHandshake: AOFSHRINK never runs while a follower handshake can be
+	// in flight (between the leader's check of AOF <pos> and its opening of the log)
+	noShrinkInHandshake bool
 	// noStaleSession: FOLLOW is never re-issued while an older follow session can
 	// still be inside its handshake (SyncBeforeFollow, no tail refollow)
 	noStaleSession bool
@@ -455,6 +465,21 @@ func shapeResyncFromZero(cs *caseSpec) bool {
 	}
 	small := totalBytes(cs.Pre) < window
 	return small && (cs.Init == initPrefix || cs.Init == initLonger || reconnects)
+}
+
+// shapeShrinkInHandshake: an AOFSHRINK may coincide with a follower handshake
+// (any AOFSHRINK that is not preceded by an oracle evaluation).
+func shapeShrinkInHandshake(cs *caseSpec) bool {
+	if cs.SyncBeforeShrink {
+		return false
+	}
+	for _, st := range cs.Steps {
+		switch st.Kind {
+		case stShrink, stRewriteShrink, stShrinkBacklog:
+			return true
+		}
+	}
+	return false
 }
 
 // shapeStaleSession: FOLLOW is re-issued without a preceding steady state.
@@ -575,9 +600,10 @@ func drawCase(t *rapid.T, o genOpts) caseSpec {
 	cs.FirstSync = o.noResyncFromZero || rapid.IntRange(0, 2).Draw(t, "firstsync") == 0
 	cs.Settle = o.noResyncFromZero
 	cs.SyncBeforeFollow = o.noStaleSession
+	cs.SyncBeforeShrink = o.noShrinkInHandshake
 	cs.AvoidBoundary = o.noBoundaryAt512K
 
-	kinds := []string{stBurst, stBurst, stBurst, stBurst, stRestart, stCut, stStall, stDown, stShrink, stRefollow, stDetachWr, stSplit, stSlow, stCutMD5, stShrinkBacklog}
+	kinds := []string{stBurst, stBurst, stBurst, stBurst, stRestart, stCut, stStall, stDown, stShrink, stRefollow, stDetachWr, stSplit, stSlow, stCutMD5, stShrinkBacklog, stRewriteShrink, stSwitch}
 	if o.noResyncFromZero {
 		kinds = []string{stBurst, stBurst, stBurst, stBurst, stRestart, stCut, stStall, stDown, stRefollow, stDetachWr, stSplit, stSlow}
 	}
@@ -608,6 +634,24 @@ func drawCase(t *rapid.T, o genOpts) caseSpec {
 				st.Cmds = append(st.Cmds, []string{"SET", "u1", "s" + strconv.Itoa(j), "POINT", c2("slat"), c2("slon")})
 				st.LCmds = append(st.LCmds, []string{"SET", "k1", "t" + strconv.Itoa(j), "POINT", c2("tlat"), c2("tlon")})
 			}
+		case stRewriteShrink:
+			// a dataset of several MB made of equally long records, so that the
+			// rewritten logs line up byte for byte except inside the overwritten ones
+			n := rapid.IntRange(30, 70).Draw(t, "nrecords")
+			size := rapid.SampledFrom([]int{60000, 88000}).Draw(t, "recsize")
+			rec := func(j, seed int) []string {
+				return []string{"SET", "big", fmt.Sprintf("r%03d", j), "STRING", fmt.Sprintf("%s%d:%d", padPrefix, size, seed)}
+			}
+			for j := 0; j < n; j++ {
+				st.Cmds = append(st.Cmds, rec(j, 100+j))
+			}
+			for j, k := 0, rapid.IntRange(1, 3).Draw(t, "noverwrite"); j < k; j++ {
+				st.LCmds = append(st.LCmds, rec(rapid.IntRange(0, n-1).Draw(t, "victim"), 500+j))
+			}
+		case stSwitch:
+			st.Cmds = burst(t, ns, f, 3, 30, rapid.IntRange(300000, 1500000).Draw(t, "newleaderpad"))
+			st.Chunk = rapid.SampledFrom([]int{8192, 32768}).Draw(t, "switchchunk")
+			st.GapMs = rapid.IntRange(1, 3).Draw(t, "switchgap")
 		case stShrinkBacklog:
 			// the backlog must exceed what the sockets between leader and proxy can
 			// park (a few MB), otherwise the leader's copy is over before the swap
@@ -647,8 +691,38 @@ func drawCase(t *rapid.T, o genOpts) caseSpec {
 	}
 	cs.TailCut = rapid.Bool().Draw(t, "tailcut")
 	cs.TailRest = rapid.Bool().Draw(t, "tailrestart")
+	gated := o.noResyncFromZero || o.noOwnHooks || o.noStaleSession
+	if !gated && rapid.IntRange(0, 15).Draw(t, "noaof") == 7 {
+		// A follower without a log of its own. It counts no bytes, so it only
+		// ever reports caught up against a leader that is empty when it attaches
+		// and stays attached: empty leader, no fault that makes it reconnect.
+		cs.NoAOF = true
+		cs.Pre = nil
+		cs.FirstSync = true
+		switch cs.Init {
+		case initPrefix:
+			cs.Init = initEmpty
+		case initLonger:
+			cs.Init = initUnrelated
+		}
+		var keep []step
+		for _, st := range cs.Steps {
+			switch st.Kind {
+			case stBurst, stPubStorm, stStall, stSlow:
+				keep = append(keep, st)
+			}
+		}
+		if len(keep) == 0 {
+			keep = []step{{Kind: stBurst, Cmds: burst(t, ns, f, 1, 20, 0), Sync: true}}
+		}
+		cs.Steps = keep
+		cs.TailCut, cs.TailRest = false, false
+	}
 	if !o.noStaleSession {
 		cs.TailRefollow = rapid.IntRange(0, 3).Draw(t, "tailrefollow") == 0
+	}
+	if cs.NoAOF {
+		cs.TailRefollow = false
 	}
 	if cs.TailCut || cs.TailRest || cs.TailRefollow {
 		// the tail reconnects run over a slow link so that a premature claim is observable
